@@ -5,6 +5,7 @@ real: ThreePointDetector, FourPointDetector, FKMDetector, find_turns,
       chunk_local_index, threepoint_loop / fourpoint_loop (rebuilt kernel).
 stub: signal source, delivery channel (chunking), scheduler, stream faults.
 """
+import math
 import warnings
 from collections import Counter
 
@@ -283,12 +284,22 @@ def gen_signal(rng, min_len=1, max_len=80):
             sig = [round(x) * 1.0e5 + 0.3 for x in sig]
     elif r < 0.27 and len(sig) > 2:
         # nearly equal (not equal) neighbours next to larger steps: sensor noise on a plateau or an extremum
-        eps = rng.choice([1e-9, 1e-10, 3e-9, 1e-12])
+        eps = rng.choice([1e-9, 1e-10, 3e-9, 1e-12, "ulp", "ulp"])
         out = []
         for x in sig:
             out.append(x)
             if rng.random() < 0.3:
-                out.append(x + rng.choice([-1, 1]) * eps * rng.choice([1, 2, 0.5]))
+                if eps == "ulp":
+                    # the neighbouring double: ranges that differ by less than the rounding of a subtraction
+                    out.append(float(np.nextafter(x, math.inf if rng.random() < 0.5 else -math.inf)))
+                else:
+                    out.append(x + rng.choice([-1, 1]) * eps * rng.choice([1, 2, 0.5]))
+        if eps == "ulp" and len(out) > 3:
+            # ... also between a sample and a LATER one (an extreme re-visited one ulp off)
+            for _ in range(rng.randint(1, 3)):
+                i_ = rng.randrange(len(out) - 2)
+                j_ = rng.randrange(i_ + 2, len(out))
+                out[j_] = float(np.nextafter(out[i_], math.inf if rng.random() < 0.5 else -math.inf))
         sig = out
     if rng.random() < 0.08:
         flip = rng.random() < 0.5
